@@ -1,6 +1,6 @@
 (* TieC09.v — facts regenerated from /repo (gen/Facts.v) against the model (Sig.v, SigParse.v). *)
 From Coq Require Import String List Bool.
-From QV Require Import Sig Peg SigParse Facts.
+From QV Require Import Sig Peg SigParse Facts C09Run.
 Import ListNotations.
 Local Open Scope string_scope.
 
@@ -42,17 +42,27 @@ Lemma tie_basic_table :
   ["i"; "I"; "l"; "L"; "s"; "b"; "f"; "d"; "v"; "m"; "o"; "X"; "c"; "C"; "w"; "W"].
 Proof. split; reflexivity. Qed.
 
-(* the grammar of init(): alternatives and sequences in the order the model uses
-   (decl, array_type, list_type, member_list, tuple_type, struct_type, map_type) *)
-Lemma tie_grammar : f_sig_grammar =
-  ["declarationType := OrdChoice(nil basicType() mapType arrayType structType tupleType)";
-   "arrayType := And(nodifyArrayType atom:[ declarationType atom:])";
-   "listType := Kleene(nil declarationType)";
-   "typeMemberList := Kleene(nil And(nodifyTypeMember atom:, typeName()))";
-   "tupleType := And(nodifyTupleType atom:( listType atom:))";
-   "structType := And(nodifyStrucType atom:( listType atom:) atom:< structName() typeMemberList atom:>)";
-   "mapType := And(nodifyMap atom:{ declarationType declarationType atom:})";
-   "typeSignature := declarationType"].
+(* the grammar of init(): alternatives and sequences in the order the model uses.  Either the
+   pinned text (decl: array_type, list_type, member_list, tuple_type, struct_type, map_type,
+   struct before tuple) or the repaired one of design/C07.grammar.fix.diff (decl_m:
+   tuple_or_struct_type with the optional struct_def); both texts are in run/C09Run.v *)
+Lemma tie_grammar : f_sig_grammar = sig_grammar_pinned \/ f_sig_grammar = sig_grammar_merged.
+Proof. (left; reflexivity) || (right; reflexivity). Qed.
+
+(* which of the two: the boolean the correspondence run uses (C09Run.source_says_merged), with
+   the callback of the merged alternative: absent from the pinned source; in the repaired source
+   it passes nodes 0..2 to nodifyTupleType when node 3 is MaybeNone and otherwise the seven nodes
+   "(" list ")" "<" name members ">" to nodifyStrucType (nodify_tuple_or_struct) *)
+Lemma tie_grammar_switch :
+  (source_says_merged = false /\ f_sig_grammar = sig_grammar_pinned /\
+   f_sig_nodifyTupleOrStruct_text = "<missing meta/signature/signature.go:.nodifyTupleOrStruct>") \/
+  (source_says_merged = true /\ f_sig_grammar = sig_grammar_merged /\
+   f_sig_nodifyTupleOrStruct_text =
+   "func nodifyTupleOrStruct(nodes []Node) Node { if _, ok := nodes[3].(parsec.MaybeNone); ok { return nodifyTupleType(nodes[:3]) } definition := nodes[3].([]Node)[0].([]Node) return nodifyStrucType(append(nodes[:3:3], definition...)) }").
+Proof. (left; repeat split; reflexivity) || (right; repeat split; reflexivity). Qed.
+
+Lemma tie_nodifyTupleType : f_sig_nodifyTupleType_text =
+  "func nodifyTupleType(nodes []Node) Node { types, err := extractMembersTypes(nodes[1]) if err != nil { return fmt.Errorf("""", err) } return NewTupleType(types) }".
 Proof. reflexivity. Qed.
 
 Lemma tie_structName : f_sig_structName_lits =
